@@ -13,7 +13,8 @@
  *                                      when the value has no NUL byte lyd_new_term()+lyd_get_value() must
  *                                      agree, otherwise " NEWTERM=<E|hex>" is appended
  *   decvn <leaf> <hex> <hex next>      as decv through lyd_value_validate only, with the bytes <next>
- *                                      placed in memory right after the value (not counted in its length)
+ *                                      placed in memory right after the value (not counted in its length);
+ *                                      regression check: the answer must not depend on <next>
  *   decvx <leaf> <hex>                 as decv through lyd_value_validate only, the value in a heap block of
  *                                      exactly its length (no terminator): any read past the value is seen by ASan
  *   cmp <leaf> <hex a> <hex b>         term a created; lyd_value_compare(a, b) -> 0 equal | 1 differ | E;
